@@ -20,6 +20,7 @@ type Case struct {
 	SpyTests     []string       // user tests: true, recorded
 	FailAt       int            // index of the spy invocation that fails (-1 = none)
 	Facts        string         // "" / "fixed" / "pinned": which sandbox facts the MODEL uses (regression instances)
+	Prime        string         // a template parsed on a throwaway engine right before this case (pooled tokenizers/parsers are reused)
 	Globals      map[string]any // engine globals (AddGlobal); the model has none: used by the shadowing oracle only
 }
 
@@ -116,8 +117,25 @@ func runImpl(c *Case) Outcome {
 		for _, g := range sortedKeys(c.Globals) {
 			e.AddGlobal(g, c.Globals[g])
 		}
-		for _, n := range sortedKeys(c.Templates) {
+		names := sortedKeys(c.Templates)
+		if c.Prime != "" {
+			// the main template is parsed last, right after the priming template
+			var rest []string
+			for _, n := range names {
+				if n != c.Main {
+					rest = append(rest, n)
+				}
+			}
+			names = rest
+		}
+		for _, n := range names {
 			if err := e.RegisterString(n, c.Templates[n]); err != nil {
+				return "", fmt.Errorf("parsing error: %w", err)
+			}
+		}
+		if c.Prime != "" {
+			twig.New().RegisterString("prime", c.Prime) // its outcome is irrelevant; what it leaves in the pools is not
+			if err := e.RegisterString(c.Main, c.Templates[c.Main]); err != nil {
 				return "", fmt.Errorf("parsing error: %w", err)
 			}
 		}
